@@ -163,7 +163,11 @@ def run(ctx):
             names[reg] = nm
             ok = a.v.startswith("sources[") and a.v.endswith("." + attr) and not a.guards
             idx = a.v[len("sources["):a.v.index("]")] if ok else "?"
-            ok = ok and f"sources[{idx}].name" in nm
+            if ok and f"sources[{idx}].name" not in nm:
+                # the name looked up in a list computed once: names = [get_source_name(source, i) for i, source in enumerate(sources)]
+                from ..names import canon_consts as _cc
+                nm = norm(_cc(ast.Expression(body=fx.expand(a.target))).body)
+            ok = ok and (f"sources[{idx}].name" in nm or f"get_source_name(sources[{idx}], {idx})" in nm)
             ctx.ob("V3", EV, "EventManager", f"{reg} field of source i <- source i .{attr}", ok,
                    "" if ok else f"{a.t} <= {a.v}", a.line)
     irq = fx.find(domain="comb", target="self.irq")
